@@ -260,7 +260,8 @@ Fixpoint sortedb (ops : list edit) : bool :=
 (** ** val glue.
     input  = (g swap sid norm a b na nb)   a, b cluster lists (real CharString
              segmentation; g only recorded); [distances] is called on the first
-             [na] elements of [a;b;a] and the first [nb] of [b;a;b]
+             [na] elements of [a;b;a] and the first [nb] of [b;a;b] (na, nb <= 3), or on large
+             alternating batches (see [batch_list])
     output = (dist pdist ops dists)  dist, pdist: rationals (num den) (the
              implementation's f64 converted exactly; den = 0 for NaN/inf);
              ops: list of (op i j), op 0..3 = Insert Delete Replace Swap;
@@ -281,10 +282,14 @@ Definition in_flags (v : val) : flags := Flags (v_bool (v_nth 1 v)) (v_bool (v_n
 Definition in_norm (v : val) : bool := v_bool (v_nth 3 v).
 Definition in_a (v : val) : list cluster := v_clusters (v_nth 4 v).
 Definition in_b (v : val) : list cluster := v_clusters (v_nth 5 v).
-Definition in_la (v : val) : list (list cluster) :=
-  firstn (v_nat (v_nth 6 v)) [in_a v; in_b v; in_a v].
-Definition in_lb (v : val) : list (list cluster) :=
-  firstn (v_nat (v_nth 7 v)) [in_b v; in_a v; in_b v].
+(** the two lists [distances] is called on: up to three elements they are prefixes of [a;b;a] / [b;a;b];
+    a count above three asks for a LARGE batch whose elements alternate between the whole text and its first
+    character (big and small DP matrices next to each other, more pairs than worker threads) *)
+Definition batch_list (x y : list cluster) (n : nat) : list (list cluster) :=
+  if n <=? 3 then firstn n [x; y; x]
+  else map (fun k => if Nat.even k then x else firstn 1 x) (seq 0 n).
+Definition in_la (v : val) : list (list cluster) := batch_list (in_a v) (in_b v) (v_nat (v_nth 6 v)).
+Definition in_lb (v : val) : list (list cluster) := batch_list (in_b v) (in_a v) (v_nat (v_nth 7 v)).
 
 (** model error (never produced, see [ops_total]) *)
 Definition v_model_err : val := L [I (-1)%Z].
